@@ -271,7 +271,8 @@ Proof.
       split; [rewrite F7, chan_tasks_app, C3; simpl; apply app_nil_r|].
       split; [intros t' Hin; rewrite F3 in Hin; apply In_task_del in Hin; rewrite C2 in Hin; exact Hin|].
       intros p Hin. rewrite F8, chan_res_app, C3 in Hin. simpl in Hin. rewrite app_nil_r in Hin. auto.
-    + injection H as <- <-. split; [exact I'|]. split; [exact E'|].
+    + injection H as <- <-. split; [eapply winvV_same; [| | | | |exact I']; reflexivity|].
+      split; [eapply ext_trans; [exact E'|apply ext_same; reflexivity]|]. simpl.
       split; [congruence|]. split; [congruence|]. split; [congruence|]. split; [congruence|].
       split; [rewrite C3; reflexivity|]. split; [intros t' Hin; rewrite C2 in Hin; exact Hin|].
       intros p Hin. rewrite C3 in Hin. auto.
